@@ -131,3 +131,25 @@ def hist_layer(seed: int, n_hist: int, steps: int, opts: Dict[str, Any] | None =
         }
 
     return fw.cached("hist", {"seed": seed, "n": n_hist, "steps": steps, "opts": opts}, compute)
+
+
+def trav_layer(seed: int, n_cases: int) -> Dict[str, Any]:
+    """function-level traversals (C06)"""
+
+    def compute() -> Dict[str, Any]:
+        from . import trav
+
+        per = max(1, n_cases // N_WORKERS)
+        t0 = time.time()
+        with ProcessPoolExecutor(max_workers=N_WORKERS) as ex:
+            parts = list(ex.map(trav.worker, [(seed * 7919 + i, per) for i in range(N_WORKERS)]))
+        shapes = set()
+        findings = []
+        for p in parts:
+            shapes.update(tuple(s) for s in p["shapes"])
+            findings += p["findings"]
+        return {"cases": sum(p["n"] for p in parts), "findings": findings[:40], "n_findings": sum(p["n_findings"] for p in parts),
+                "shapes": sorted(shapes), "skipped_near_boundary": sum(p["skipped"] for p in parts),
+                "sample": parts[0]["sample"], "wall_s": round(time.time() - t0, 2)}
+
+    return fw.cached("trav", {"seed": seed, "n": n_cases}, compute)
